@@ -39,50 +39,83 @@ theorem delete_not_writes (k lk : Nat) : (TOp.delete lk).writes k = false := rfl
 def WritesLast (k : Nat) (ttl : Option Nat) (tags : List Nat) (ops : List TOp) : Prop :=
   ∃ pre post v, ops = pre ++ decorWrite k v ttl tags :: post ∧ ∀ op ∈ post, op.writes k = false
 
-theorem earlyCall_shape (cfg : Cfg) (s : St) (k lk x : Nat) (ttl : Option Nat) (early : Nat) (tags : List Nat) :
-    bodyRan (earlyCall cfg s k lk x ttl early tags).2 = true →
-      WritesLast k ttl tags (earlyCall cfg s k lk x ttl early tags).1 := by
+theorem simpleCall_shape (cfg : Cfg) (s : St) (k : Nat) (v : Val) (ttl : Option Nat) (tags : List Nat) (r : Run) :
+    bodyRan (simpleCall cfg s k v ttl tags r).2 = true → WritesLast k ttl tags (simpleCall cfg s k v ttl tags r).1 := by
+  unfold simpleCall
+  split
+  · intro h; simp [bodyRan] at h
+  · split
+    · intro _; exact ⟨[.get k, .adv r.dur], [], _, rfl, by simp⟩
+    · intro h; simp [bodyRan] at h
+
+theorem earlyCall_shape (cfg : Cfg) (s : St) (k lk x : Nat) (ttl : Option Nat) (early : Nat) (tags : List Nat) (r : Run) :
+    bodyRan (earlyCall cfg s k lk x ttl early tags r).2 = true →
+      WritesLast k ttl tags (earlyCall cfg s k lk x ttl early tags r).1 := by
   unfold earlyCall earlyCallWith
   simp only
   split
-  · intro _; exact ⟨[.get k], [], _, rfl, by simp⟩
+  · split
+    · intro _; exact ⟨[.get k, .adv r.dur], [], _, rfl, by simp⟩
+    · intro h; simp [bodyRan] at h
   · split
     · intro h; simp [bodyRan] at h
     · split
-      · intro _
-        exact ⟨[.get k, .set lk (.tok 1) (some early) .nx []], [.delete lk], _, rfl, by intro op ho; simp at ho; subst ho; rfl⟩
+      · split
+        · intro _
+          exact ⟨[.get k, .set lk (.tok 1) (some early) .nx [], .adv r.dur], [.delete lk], _, rfl,
+            by intro op ho; simp at ho; subst ho; rfl⟩
+        · intro h; simp [bodyRan] at h
       · intro h; simp [bodyRan] at h
   · intro h; simp [bodyRan] at h
 
-theorem softCall_shape (cfg : Cfg) (s : St) (k x : Nat) (ttl : Option Nat) (soft : Nat) (tags : List Nat) :
-    bodyRan (softCall cfg s k x ttl soft tags).2 = true → WritesLast k ttl tags (softCall cfg s k x ttl soft tags).1 := by
+theorem softCall_shape (cfg : Cfg) (s : St) (k x : Nat) (ttl : Option Nat) (soft : Nat) (tags : List Nat) (r : Run) :
+    bodyRan (softCall cfg s k x ttl soft tags r).2 = true → WritesLast k ttl tags (softCall cfg s k x ttl soft tags r).1 := by
+  have hc : bodyRan (if r.accept = true then
+        (([.get k, .adv r.dur, decorWrite k (.nums [s.now + r.dur + soft, x]) ttl tags], .vals [some (.tok x)]) : List TOp × Out)
+      else ([.get k, .adv r.dur], .vals [none])).2 = true →
+      WritesLast k ttl tags (if r.accept = true then
+        (([.get k, .adv r.dur, decorWrite k (.nums [s.now + r.dur + soft, x]) ttl tags], .vals [some (.tok x)]) : List TOp × Out)
+      else ([.get k, .adv r.dur], .vals [none])).1 := by
+    split
+    · intro _; exact ⟨[.get k, .adv r.dur], [], _, rfl, by simp⟩
+    · intro h; simp [bodyRan] at h
   unfold softCall
   simp only
   split
-  · intro _; exact ⟨[.get k], [], _, rfl, by simp⟩
+  · exact hc
   · split
     · intro h; simp [bodyRan] at h
-    · intro _; exact ⟨[.get k], [], _, rfl, by simp⟩
+    · exact hc
   · intro h; simp [bodyRan] at h
 
-theorem hitCall_shape (cfg : Cfg) (s : St) (k kc x : Nat) (ttl : Option Nat) (tags : List Nat) (ch ua : Nat) :
-    bodyRan (hitCall cfg s k kc x ttl tags ch ua).2 = true → WritesLast k ttl tags (hitCall cfg s k kc x ttl tags ch ua).1 := by
-  have hw : WritesLast k ttl tags [.get k, .incr kc 1 ttl tags, .delete kc, decorWrite k (.tok x) ttl tags] :=
-    ⟨[.get k, .incr kc 1 ttl tags, .delete kc], [], _, rfl, by simp⟩
+theorem hitCall_shape (cfg : Cfg) (s : St) (k kc x : Nat) (ttl : Option Nat) (tags : List Nat) (ch ua : Nat) (r : Run) :
+    bodyRan (hitCall cfg s k kc x ttl tags ch ua r).2 = true → WritesLast k ttl tags (hitCall cfg s k kc x ttl tags ch ua r).1 := by
+  have hs : ∀ acc : Bool, bodyRan (if acc = true then
+        (([.get k, .incr kc 1 ttl tags, .adv r.dur, .delete kc, decorWrite k (.tok x) ttl tags], .vals [some (.tok x)]) : List TOp × Out)
+      else ([.get k, .incr kc 1 ttl tags, .adv r.dur], .vals [none])).2 = true →
+      WritesLast k ttl tags (if acc = true then
+        (([.get k, .incr kc 1 ttl tags, .adv r.dur, .delete kc, decorWrite k (.tok x) ttl tags], .vals [some (.tok x)]) : List TOp × Out)
+      else ([.get k, .incr kc 1 ttl tags, .adv r.dur], .vals [none])).1 := by
+    intro acc
+    split
+    · intro _; exact ⟨[.get k, .incr kc 1 ttl tags, .adv r.dur, .delete kc], [], _, rfl, by simp⟩
+    · intro h; simp [bodyRan] at h
   unfold hitCall
   simp only
   split
   · split
     · split
-      · intro _; exact hw
+      · exact hs _
       · intro h; simp [bodyRan] at h
-    · intro _; exact hw
-  · intro _; exact hw
+    · exact hs _
+  · exact hs _
   · intro h; simp [bodyRan] at h
 
-/-- **whenever the body of a decorated call ran, the latest write of its key carries the call's tags** - for the simple
-decorator's miss and for every re-write path of `early` (recalculation ahead of the deadline), `soft` (recomputation
-after the soft deadline) and `hit` / `dynamic` (update at `update_after`, recomputation beyond `cache_hits`) -/
+/-- **whenever the body of a decorated call ran and its result was stored, the latest write of its key carries the call's
+tags** - for the simple decorator's miss and for every re-write path of `early` (recalculation ahead of the deadline),
+`soft` (recomputation after the soft deadline) and `hit` / `dynamic` (update at `update_after`, recomputation beyond
+`cache_hits`), under every option that changes the wrapping path (`Run`: `upper=True`, `lock=True`, `protected=False`,
+`time_condition=`) -/
 theorem decorCall_last {cfg : Cfg} {s : St} {k : Nat} {ttl : Option Nat} {tags : List Nat} {p : List TOp × Out}
     (hp : DecorCall cfg s k ttl tags p) (hran : bodyRan p.2 = true) : (exec cfg s p.1).last k = tags := by
   have fin : ∀ ops, WritesLast k ttl tags ops → (exec cfg s ops).last k = tags := by
@@ -94,8 +127,9 @@ theorem decorCall_last {cfg : Cfg} {s : St} {k : Nat} {ttl : Option Nat} {tags :
     rw [step_last]
     cases hout : (step cfg s (.call k v ttl tags)).2 <;> simp [hout, bodyRan] at hran ⊢ <;>
       simp [TOp.writes, TOp.wrote, TOp.tagsFor]
-  | early lk x early hne => exact fin _ (earlyCall_shape cfg s k lk x ttl early tags hran)
-  | soft x soft => exact fin _ (softCall_shape cfg s k x ttl soft tags hran)
-  | hit kc x ch ua hne => exact fin _ (hitCall_shape cfg s k kc x ttl tags ch ua hran)
+  | simpleOpt v r => exact fin _ (simpleCall_shape cfg s k v ttl tags r hran)
+  | early lk x early r hne => exact fin _ (earlyCall_shape cfg s k lk x ttl early tags r hran)
+  | soft x soft r => exact fin _ (softCall_shape cfg s k x ttl soft tags r hran)
+  | hit kc x ch ua r hne => exact fin _ (hitCall_shape cfg s k kc x ttl tags ch ua r hran)
 
 end CashewsVerif.Tags
